@@ -303,6 +303,11 @@ def run(tier, seed, log):
     for f in fails:
         f["property"] = f["clause"].split(".")[0]
         f["engine"] = "graph"
+        last = (f.get("history") or [{}])[-1]
+        if last.get("name") == "New" and f["clause"] == "C15.unchanged":
+            nargs = (1 if last["n"] else 0) + bin(last["key"]).count("1")
+            if nargs >= 2:                     # rejected for a LATER relation argument: the known finding
+                f.setdefault("tags", []).append("ctor-partial")
     return {"engine": "graph", "tier": tier, "seed": seed, "wall_s": time.time() - t0, "fails": fails,
             "coverage": cov}
 
